@@ -53,6 +53,9 @@ type step struct {
 	// next action has been issued, so the worker's timer wins the select but its clean-up cannot
 	// run before the next action (a late reply) has queued up on the mutex.
 	Hold bool `json:"hold,omitempty"`
+	// E (send failures only): SendFunc fails with an error whose text is empty (mesos-go's
+	// apierrors does that for an HTTP status outside its table with an empty body).
+	E bool `json:"e,omitempty"`
 
 	// filled by annotate(); not part of the input identity
 	awaitSends  int
@@ -69,6 +72,10 @@ type input struct {
 	// Level 0: the script goes through CommandQueue.Enqueue.  Level 1: the harness plays
 	// CommandQueue.commit itself (one goroutine per target calling the real Servent.RunCommand,
 	// one command at a time, same consolidation) and so sees what every RunCommand returned.
+	// Level 2: a timed script: one command with very many targets through the real queue, SendFunc
+	// not gated (returns at once: nil, or an error for the senderr steps), the targets of the
+	// deliver steps answer at once, the targets of the timeout steps stay silent; the times from
+	// Enqueue to the callback and to the last SendFunc invocation are measured.
 	Level int `json:"level,omitempty"`
 }
 
@@ -369,6 +376,7 @@ type observation struct {
 	Tries   int      `json:"tries,omitempty"`
 	TmoMs   int      `json:"timeout_ms,omitempty"`
 	Detail  string   `json:"detail,omitempty"`
+	Timing  [][3]int `json:"timing,omitempty"` // timed scripts: (timeout, Enqueue->callback, Enqueue->last SendFunc call) in ms
 }
 
 type runner struct {
@@ -395,9 +403,16 @@ type runner struct {
 	sq    chan *sentry
 	sres  map[int]*sresult
 	nils  int32
+
+	emptyFail map[string]bool // (id, target) whose SendFunc failed with an empty error text
 }
 
-type respState struct{ started, ret int32 }
+func efKey(id xid.ID, t cc.MesosCommandTarget) string { return id.String() + "/" + t.TaskId.Value }
+
+type respState struct {
+	started, ret int32
+	call         *cc.Call // forced races: the call the responder is expected to stay blocked on
+}
 
 // held steps need the Lock/Unlock hook of zz_verif_c12.go; against a tree that does not have it
 // (yet) the harness still builds and plays held time-outs as ordinary ones
@@ -448,7 +463,7 @@ func (r *runner) serventLoop() {
 			case x.err != nil && x.resp == nil:
 				msg := x.err.Error()
 				switch {
-				case msg == sendErrText(e.cmd.GetId(), x.t):
+				case msg == sendErrText(e.cmd.GetId(), x.t), msg == "" && r.isEmptyFail(e.cmd.GetId(), x.t):
 					eo = entryObs{Kind: "senderr"}
 				case strings.Contains(msg, "verif-send-fail"):
 					eo = entryObs{Kind: "other"}
@@ -461,7 +476,7 @@ func (r *runner) serventLoop() {
 				atomic.AddInt32(&r.nils, 1)
 				eo = entryObs{Kind: "other"}
 			default:
-				eo = classifyEntry(x.resp, e.cmd.GetId(), x.t)
+				eo = classifyEntry(x.resp, e.cmd.GetId(), x.t, false)
 			}
 			byT[targetNum(x.t)] = eo
 		}
@@ -656,7 +671,15 @@ func (r *runner) invOf(cmd, w int) *invocation {
 	return nil
 }
 
-func classifyEntry(resp cc.MesosCommandResponse, id xid.ID, t cc.MesosCommandTarget) entryObs {
+func (r *runner) isEmptyFail(id xid.ID, t cc.MesosCommandTarget) bool {
+	r.mu.Lock()
+	defer r.mu.Unlock()
+	return r.emptyFail[efKey(id, t)]
+}
+
+// emptyFail: the harness made SendFunc fail for this (command, target) with an empty error text;
+// the substitute response must still be an error response (any non-empty text).
+func classifyEntry(resp cc.MesosCommandResponse, id xid.ID, t cc.MesosCommandTarget, emptyFail bool) entryObs {
 	if resp == nil {
 		return entryObs{Kind: "other"}
 	}
@@ -675,6 +698,9 @@ func classifyEntry(resp cc.MesosCommandResponse, id xid.ID, t cc.MesosCommandTar
 			return entryObs{Kind: "senderr"}
 		}
 		return entryObs{Kind: "other"} // the send error of another command or target
+	}
+	if emptyFail {
+		return entryObs{Kind: "senderr"}
 	}
 	return entryObs{Kind: "timeout"} // any other error: "did not answer" class
 }
@@ -711,7 +737,7 @@ func (r *runner) classify(id int, v cc.MesosCommandResponse) (res resultObs) {
 		}
 		nerr := 0
 		for _, n := range keys {
-			e := classifyEntry(byNum[n], x, mkTarget(n))
+			e := classifyEntry(byNum[n], x, mkTarget(n), r.isEmptyFail(x, mkTarget(n)))
 			out.Targets = append(out.Targets, n)
 			out.Entries = append(out.Entries, e)
 			isErr := byNum[n] == nil || byNum[n].Err() != nil
@@ -731,14 +757,14 @@ func (r *runner) classify(id int, v cc.MesosCommandResponse) (res resultObs) {
 	if len(ts) > 0 {
 		t = ts[0]
 	}
-	e := classifyEntry(v, x, mkTarget(t))
+	e := classifyEntry(v, x, mkTarget(t), r.isEmptyFail(x, mkTarget(t)))
 	return resultObs{Kind: "single", Single: &e}
 }
 
 func runScript(steps []step, level int, T time.Duration) (observation, int) {
 	r := &runner{xids: map[int]xid.ID{}, cbs: map[int]chan cc.MesosCommandResponse{},
 		cmds: map[int][]int{}, resolved: map[int]bool{}, T: T, level: level,
-		sres: map[int]*sresult{}}
+		sres: map[int]*sresult{}, emptyFail: map[string]bool{}}
 	r.sv = cc.NewServent(r.sendFunc)
 	if level == 1 {
 		r.sq = make(chan *sentry, 64)
@@ -816,7 +842,14 @@ func runScript(steps []step, level int, T time.Duration) (observation, int) {
 			if s.Op == "sendok" {
 				iv.release <- nil
 			} else {
-				iv.release <- errors.New(sendErrText(iv.id, iv.target))
+				if s.E {
+					r.mu.Lock()
+					r.emptyFail[efKey(iv.id, iv.target)] = true
+					r.mu.Unlock()
+					iv.release <- errors.New("")
+				} else {
+					iv.release <- errors.New(sendErrText(iv.id, iv.target))
+				}
 			}
 		case "timeout":
 			// nothing to do: the timer fires by itself; the await below observes it
@@ -854,6 +887,9 @@ func runScript(steps []step, level int, T time.Duration) (observation, int) {
 					time.Sleep(100 * time.Microsecond)
 				}
 				if s.note == "race" {
+					if heldIv != nil {
+						rs.call = heldIv.call
+					}
 					raced = append(raced, rs)
 				}
 			}
@@ -909,6 +945,7 @@ func runScript(steps []step, level int, T time.Duration) (observation, int) {
 	}
 	// leaked responders: whoever is still blocked in call.Done<- is released (and counted)
 	leaks := 0
+	drained := map[*cc.Call]bool{}
 	deadline := time.Now().Add(watchdog)
 	if r.stuck != "" {
 		deadline = time.Now().Add(300 * time.Millisecond)
@@ -918,6 +955,7 @@ func runScript(steps []step, level int, T time.Duration) (observation, int) {
 		for _, iv := range r.invs {
 			if cc.VerifC12TryDrainDone(iv.call) {
 				leaks++
+				drained[iv.call] = true
 			}
 		}
 		r.mu.Unlock()
@@ -931,6 +969,11 @@ func runScript(steps []step, level int, T time.Duration) (observation, int) {
 		time.Sleep(100 * time.Microsecond)
 	}
 
+	for _, rs := range raced {
+		if rs.call != nil && !drained[rs.call] {
+			r.raceLost = true // it returned by itself: it never was blocked on the call
+		}
+	}
 	obs := observation{Pending: r.sv.VerifC12PendingLen(), Leaks: leaks, Stuck: r.stuck,
 		Nils: int(atomic.LoadInt32(&r.nils)), When: []int{}}
 	for _, id := range r.order {
@@ -1001,8 +1044,164 @@ func runScript(steps []step, level int, T time.Duration) (observation, int) {
 
 // runCase runs a script; a run whose timing-sensitive step (a reply meant to arrive while the
 // timer is still running) came too late is discarded and repeated with a longer timeout.
+// runWide plays a timed script (level 2).
+func runWide(steps []step, T time.Duration) observation {
+	r := &runner{xids: map[int]xid.ID{}, cbs: map[int]chan cc.MesosCommandResponse{},
+		cmds: map[int][]int{}, resolved: map[int]bool{}, T: T, sres: map[int]*sresult{}, emptyFail: map[string]bool{}}
+	var enq *step
+	fail := map[int]*step{} // by worker
+	live := map[int]int{}   // by target -> tag
+	for i := range steps {
+		s := &steps[i]
+		switch s.Op {
+		case "enq":
+			if enq == nil {
+				enq = s
+			}
+		case "senderr":
+			fail[s.W] = s
+		case "deliver":
+			live[s.T] = s.P
+		}
+	}
+	if enq == nil {
+		return observation{When: []int{}, Stuck: "timed script without a command"}
+	}
+	failT := map[int]*step{}
+	for w, s := range fail {
+		if w >= 0 && w < len(enq.Targets) {
+			failT[enq.Targets[w]] = s
+		}
+	}
+	envId := uid.New()
+	var t0 time.Time
+	var lastSend int64 // ns since t0
+	var spawned, returned int32
+	var shapeBad int32
+	sends := map[int]int{}
+	r.sv = cc.NewServent(func(cmd cc.MesosCommand, rcv cc.MesosCommandTarget) error {
+		d := int64(time.Since(t0))
+		for {
+			old := atomic.LoadInt64(&lastSend)
+			if d <= old || atomic.CompareAndSwapInt64(&lastSend, old, d) {
+				break
+			}
+		}
+		if b, ok := cmd.(*cc.MesosCommandBase); !ok || b == nil || len(b.TargetList) != 1 || b.TargetList[0] != rcv || cmd.IsMultiCmd() {
+			atomic.StoreInt32(&shapeBad, 1)
+		}
+		n := targetNum(rcv)
+		r.mu.Lock()
+		sends[n]++
+		r.mu.Unlock()
+		if s := failT[n]; s != nil {
+			if s.E {
+				r.mu.Lock()
+				r.emptyFail[efKey(cmd.GetId(), rcv)] = true
+				r.mu.Unlock()
+				return errors.New("")
+			}
+			return errors.New(sendErrText(cmd.GetId(), rcv))
+		}
+		if p, ok := live[n]; ok {
+			resp := &tagResp{Tag: p}
+			resp.CommandName = "verif"
+			resp.CommandId = cmd.GetId()
+			resp.EnvironmentId = envId
+			resp.MessageType = "MesosCommandResponse"
+			resp.ResponseSenders = []cc.MesosCommandTarget{rcv}
+			if p%2 == 1 {
+				resp.ErrorString = fmt.Sprintf("task-%d says no (%d)", n, p)
+			}
+			atomic.AddInt32(&spawned, 1)
+			go func() {
+				time.Sleep(time.Millisecond)
+				r.sv.ProcessResponse(resp, rcv)
+				atomic.AddInt32(&returned, 1)
+			}()
+		}
+		return nil
+	})
+	r.q = cc.NewCommandQueue(r.sv)
+	r.q.Start()
+	var tl []cc.MesosCommandTarget
+	for _, t := range enq.Targets {
+		tl = append(tl, mkTarget(t))
+	}
+	cmd := cc.NewMesosCommand("verif", envId, tl, nil)
+	cmd.ResponseTimeout = T
+	r.xids[enq.Cmd] = cmd.Id
+	r.cmds[enq.Cmd] = append([]int(nil), enq.Targets...)
+	r.order = []int{enq.Cmd}
+	cb := make(chan cc.MesosCommandResponse, 8)
+	t0 = time.Now()
+	if err := r.q.Enqueue(cmd, cb); err != nil {
+		return observation{When: []int{}, Stuck: "enqueue refused"}
+	}
+	obs := observation{When: []int{0}}
+	co := cmdObs{Result: resultObs{Kind: "nil"}}
+	select {
+	case v := <-cb:
+		done := time.Since(t0)
+		time.Sleep(20 * time.Millisecond) // a second value would be a violation of its own
+		co.Fires = 1 + len(cb)
+		co.Result = r.classify(enq.Cmd, v)
+		obs.When = []int{len(steps)}
+		obs.Timing = [][3]int{{int(T / time.Millisecond), int(done / time.Millisecond), int(atomic.LoadInt64(&lastSend) / int64(time.Millisecond))}}
+	case <-time.After(8*T + 3*time.Second):
+		obs.Stuck = "callback never fired"
+		obs.Timing = [][3]int{{int(T / time.Millisecond), int((8*T + 3*time.Second) / time.Millisecond), int(atomic.LoadInt64(&lastSend) / int64(time.Millisecond))}}
+	}
+	obs.Outs = []cmdObs{co}
+	for d := time.Now().Add(300 * time.Millisecond); atomic.LoadInt32(&returned) < atomic.LoadInt32(&spawned) && time.Now().Before(d); {
+		time.Sleep(time.Millisecond)
+	}
+	obs.Leaks = int(atomic.LoadInt32(&spawned) - atomic.LoadInt32(&returned))
+	obs.Pending = r.sv.VerifC12PendingLen()
+	r.mu.Lock()
+	for n, k := range sends {
+		for j := 0; j < k; j++ {
+			t := n
+			if atomic.LoadInt32(&shapeBad) != 0 {
+				t += 100000
+			}
+			obs.Sends = append(obs.Sends, [2]int{enq.Cmd, t})
+		}
+	}
+	r.mu.Unlock()
+	sort.Slice(obs.Sends, func(i, j int) bool { return obs.Sends[i][1] < obs.Sends[j][1] })
+	go r.q.Stop()
+	return obs
+}
+
+func timingLate(o observation) bool {
+	for _, x := range o.Timing {
+		if x[1] > x[0]+2*x[0]/3 || x[2] > x[0]/2 {
+			return true
+		}
+	}
+	return false
+}
+
 func runCase(in input) (observation, []step) {
 	_, steps := annotate(in.Steps)
+	if in.Level == 2 {
+		// a measured time beyond the bound is only reported when it shows up with the doubled
+		// and the quadrupled timeout as well (a loaded machine delays everything by a constant,
+		// code that makes targets wait for one another by multiples of the timeout)
+		T := 150 * time.Millisecond
+		var obs observation
+		for try := 1; ; try++ {
+			obs = runWide(steps, T)
+			obs.Tries = try
+			obs.TmoMs = int(T / time.Millisecond)
+			if !timingLate(obs) || try >= 3 {
+				break
+			}
+			T *= 2
+		}
+		return obs, steps
+	}
 	level := 0
 	if in.Level == 1 {
 		level = 1
@@ -1105,8 +1304,15 @@ func caseTerm(in input, o observation) string {
 	for i, s := range o.Sends {
 		sends[i] = gen.Pair(gen.N(uint64(s[0])), gen.N(uint64(s[1])))
 	}
-	return fmt.Sprintf("mkCase %s %d %s %s %s %d %d %s %d %d", gen.List(st), level, nlist(holds), gen.List(outs),
-		gen.List(sends), o.Pending, o.Leaks, nlist(whens), o.Nils, o.Crash)
+	if in.Level == 2 {
+		level = 2
+	}
+	tim := make([]string, len(o.Timing))
+	for i, x := range o.Timing {
+		tim[i] = fmt.Sprintf("(%d, %d, %d)", x[0], x[1], x[2])
+	}
+	return fmt.Sprintf("mkCase %s %d %s %s %s %d %d %s %d %d %s", gen.List(st), level, nlist(holds), gen.List(outs),
+		gen.List(sends), o.Pending, o.Leaks, nlist(whens), o.Nils, o.Crash, gen.List(tim))
 }
 
 // ---------------------------------------------------------------- generator
@@ -1231,7 +1437,7 @@ func genScript(r *gen.Rand, flavour int) []step {
 						add(6, func() { push(step{Op: "sendok", Cmd: k.id, W: i}) })
 					}
 					if !dup || dupFail {
-						add(2, func() { push(step{Op: "senderr", Cmd: k.id, W: i}) })
+						add(2, func() { push(step{Op: "senderr", Cmd: k.id, W: i, E: r.Chance(1, 4)}) })
 					}
 					if _, has := k.pending[t]; has && !dup {
 						add(3, func() { push(step{Op: "deliver", Cmd: k.id, T: t, P: newP(r.Chance(1, 4))}) })
@@ -1460,6 +1666,66 @@ func genAlias(r *gen.Rand) []step {
 	return steps
 }
 
+// genWide: one command with very many targets (more than any fan-out limit one would think
+// of), a mix of silent, live and unreachable targets, for the timed runs.
+func genWide(r *gen.Rand, variant int) []step {
+	n := r.Range(129, 220)
+	if variant%4 == 3 {
+		n = r.Range(260, 400)
+	}
+	perm := r.Perm(n)
+	ts := make([]int, n)
+	for i := range ts {
+		ts[i] = perm[i] + 1
+	}
+	// behaviour per worker: 0 silent, 1 live, 2 send failure
+	beh := make([]int, n)
+	switch variant % 4 {
+	case 0: // all silent
+	case 1: // the first 128 (and more) silent, then live ones, silent ones at the end
+		for w := 130; w < n-3; w++ {
+			beh[w] = 1
+		}
+	case 2: // mostly live, silent ones sprinkled in
+		for w := range beh {
+			if !r.Chance(1, 6) {
+				beh[w] = 1
+			}
+		}
+		beh[n-1] = 0
+	default: // everything mixed
+		for w := range beh {
+			beh[w] = r.Intn(3)
+		}
+		beh[r.Intn(n)] = 0
+	}
+	steps := []step{{Op: "enq", Cmd: 1, Targets: ts}}
+	for w := range ts {
+		if beh[w] == 2 {
+			steps = append(steps, step{Op: "senderr", Cmd: 1, W: w, E: r.Chance(1, 5)})
+		} else {
+			steps = append(steps, step{Op: "sendok", Cmd: 1, W: w})
+		}
+	}
+	p := 1000
+	for w, t := range ts {
+		if beh[w] == 1 {
+			p += 2
+			q := p
+			if r.Chance(1, 8) {
+				q++
+			}
+			steps = append(steps, step{Op: "deliver", Cmd: 1, T: t, P: q})
+		}
+	}
+	for w := range ts {
+		if beh[w] == 0 {
+			steps = append(steps, step{Op: "timeout", Cmd: 1, W: w})
+		}
+	}
+	return steps
+}
+
 func kindOf(steps []step) string {
 	nc, dup, zero := 0, false, false
 	for _, s := range steps {
@@ -1496,7 +1762,7 @@ func kindOf(steps []step) string {
 func strip(steps []step) []step {
 	out := make([]step, len(steps))
 	for i, s := range steps {
-		out[i] = step{Op: s.Op, Cmd: s.Cmd, W: s.W, T: s.T, P: s.P, Targets: s.Targets, Hold: s.Hold}
+		out[i] = step{Op: s.Op, Cmd: s.Cmd, W: s.W, T: s.T, P: s.P, Targets: s.Targets, Hold: s.Hold, E: s.E}
 	}
 	return out
 }
@@ -1538,8 +1804,10 @@ func childMain(inFile, outFile string) {
 		panic(err)
 	}
 	if jf.Solo {
-		runtime.GOMAXPROCS(1)
 		jf.Par = 1
+		if len(jf.Jobs) != 1 || jf.Jobs[0].Input.Level != 2 {
+			runtime.GOMAXPROCS(1) // timed scripts keep all processors
+		}
 	}
 	out, err := os.OpenFile(outFile, os.O_CREATE|os.O_WRONLY|os.O_APPEND, 0o644)
 	if err != nil {
@@ -1654,14 +1922,17 @@ func runAll(o gen.Opts, inputs []input, forceSolo bool) ([]observation, int, int
 		wg.Wait()
 	}
 
-	var solos, batched []int
+	var solos, batched, wides []int
 	for i, in := range inputs {
-		if forceSolo || in.Level == 1 {
+		if in.Level == 2 {
+			wides = append(wides, i)
+		} else if forceSolo || in.Level == 1 {
 			solos = append(solos, i)
 		} else {
 			batched = append(batched, i)
 		}
 	}
+	runSolos(wides, 2) // timed scripts first, while the machine is quiet
 	runSolos(solos, 8)
 
 	const batchSize = 40
@@ -1747,7 +2018,17 @@ func main() {
 			}
 		}
 		r := gen.NewRand(o.Seed)
-		rMain, rOne, rMal, rAli, rLvl := r.Fork(), r.Fork(), r.Fork(), r.Fork(), r.Fork()
+		rMain, rOne, rMal, rAli, rLvl, rWide := r.Fork(), r.Fork(), r.Fork(), r.Fork(), r.Fork(), r.Fork()
+		// time bound: commands with hundreds of targets, measured
+		nw := 4
+		if o.Tier == "thorough" {
+			nw = 16
+		}
+		for i := 0; i < nw; i++ {
+			st := genWide(rWide, i)
+			inputs = append(inputs, input{Steps: strip(st), Level: 2})
+			kinds = append(kinds, fmt.Sprintf("wide:v%d", i%4))
+		}
 		// identity of per-command objects: a stale responder, then further commands; every
 		// script at the servent level and through the CommandQueue
 		na := o.N / 40
